@@ -177,3 +177,76 @@ class BestEval(Unit):
 
 
 UNITS = [BestEval()]
+
+
+# ---- C03.O3: lemma over the contracts ------------------------------------------------------------------------------
+class ReturnedPointLemma(Unit):
+    """COVER (invariant of Problem.__call__) + the selection rule (postcondition of best_eval) => the two clauses of the statement
+    over *all* evaluated points.  No code is executed: this is the composition step, discharged by the solver."""
+    name = "besteval.lemma_returned_point_is_best"
+    props = ("C03",)
+    fmodel = "ORDER"
+    functions = []
+    timeout_ms = 30000
+    assumptions = ["N1/N2: the merit clause is stated for the tier in which no retained point is feasible, over evaluated points whose "
+                   "objective and violation are defined and whose merit value does not overflow to NaN"]
+
+    def run(self, c):
+        from .pbcall import Hist, fd, dom, subset_all
+        H = Hist(c)
+        F, M, X = SList("F"), SList("M"), XList("X")
+        c.assume(z3.And(M.len == F.len, X.len == F.len, F.len >= 1))
+        j = z3.Int("vcx_j")
+        c.assume(z3.ForAll([j], z3.Implies(z3.And(0 <= j, j < H.len), z3.Or(H.mn[j], H.mr[j] >= 0)), patterns=[H.mr[j]]))
+        c.assume(subset_all(F, M, X, H))
+        # COVER as a Skolem function: every fully defined evaluated point p is dominated by the retained entry w(p)
+        w = z3.Function(c.fresh_name("cover_w"), I, I)
+        p = z3.Int("vcx_p")
+        c.assume(z3.ForAll([p], z3.Implies(z3.And(0 <= p, p < H.len, fd(H.f(p), H.m(p))),
+                                           z3.And(0 <= w(p), w(p) < F.len, dom(F.at(w(p)), M.at(w(p)), H.f(p), H.m(p)))),
+                           patterns=[w(p)]))
+        tol = SF.fresh("feasibility_tol", finite=True)
+        pen = SF.fresh("penalty", finite=True)
+        c.assume(pen.r >= 0)
+        i = z3.Int(c.fresh_name("best.index"))
+        c.assume(z3.And(0 <= i, i < F.len))
+        S = Spec(c, F, M, tol, pen)
+        for nm, t in selection_rule(S, i):
+            c.assume(t)
+        fi, mi = F.at(i), M.at(i)
+        # an arbitrary evaluated point
+        p0 = z3.Int(c.fresh_name("p"))
+        c.assume(z3.And(0 <= p0, p0 < H.len))
+        fp, mp = H.f(p0), H.m(p0)
+        q0 = w(p0)
+        c.assume(q0 == q0)      # make the instance term available
+        feas = lambda m_: z3.And(z3.Not(m_.nan), m_.r <= tol.r)
+        # clause 1: a feasible evaluated point with a defined objective exists => returned point feasible with the least objective
+        c.oblige("C03.lemma.feasible_point_with_least_objective",
+                 z3.Implies(z3.And(feas(mp), z3.Not(fp.nan)), z3.And(feas(mi), z3.Not(fi.nan), fi.r <= fp.r)), props=["C03"])
+        # not dominated by any evaluated point
+        c.oblige("C03.lemma.not_dominated_when_feasible_exists",
+                 z3.Implies(z3.And(feas(mi), z3.Not(fi.nan), fd(fp, mp)), z3.Not(z3.And(fp.r < fi.r, mp.r < mi.r))), props=["C03"])
+        # clause 2 (no retained point is feasible): least merit over the evaluated, fully defined points
+        nofeas = S.q(lambda k: z3.Not(S.feas(k)))
+        with QScope(c, z3.Int(c.fresh_name("vcx_unused"))):
+            mer_i = S.merit(i)
+            mer_p = fp + pen * mp
+            mer_q = S.merit(q0)
+        ok_p = z3.And(fd(fp, mp), mp.r < PINF, z3.Not(mer_p.nan), S.merit_def(q0))
+        # intermediate cuts: domination implies a smaller merit (IEEE monotonicity); the selection rule at index w(p)
+        pm_q, pm_p = pen * M.at(q0), pen * mp
+        c.oblige("C03.lemma.cut.penalty_term_monotone", z3.Implies(ok_p, z3.And(z3.Not(pm_q.nan), z3.Not(pm_p.nan), pm_q.r <= pm_p.r)), props=["C03"])
+        c.oblige("C03.lemma.cut.dominating_entry_has_smaller_merit", z3.Implies(ok_p, mer_q.r <= mer_p.r), props=["C03"])
+        c.oblige("C03.lemma.cut.selected_has_least_merit_in_filter",
+                 z3.Implies(z3.And(nofeas, S.merit_def(i), ok_p), mer_i.r <= mer_q.r), props=["C03"])
+        c.oblige("C03.lemma.least_merit_when_nothing_feasible",
+                 z3.Implies(z3.And(nofeas, S.merit_def(i), ok_p), mer_i.r <= mer_p.r), props=["C03"])
+        c.oblige("C03.lemma.not_dominated_when_nothing_feasible",
+                 z3.Implies(z3.And(nofeas, S.merit_def(i), ok_p), z3.Not(z3.And(fp.r < fi.r, mp.r < mi.r))), props=["C03"])
+        # NaN never preferred to a defined value among feasible points
+        c.oblige("C03.lemma.nan_objective_never_preferred_among_feasible",
+                 z3.Implies(z3.And(feas(mp), z3.Not(fp.nan)), z3.Not(fi.nan)), props=["C03"])
+
+
+UNITS.append(ReturnedPointLemma())
